@@ -76,7 +76,7 @@ MANIFEST = {
 }
 MODULES = ["PrimaiteModel.Props.C15Keeps", "PrimaiteModel.Props.C15Loader", "PrimaiteModel.Props.C15", "PrimaiteModel.Props.C15Api", "PrimaiteModel.Props.C15Node", "PrimaiteModel.Props.C15Verbs",
            "PrimaiteModel.Props.C15Actions", "PrimaiteModel.Props.C15Inventory", "PrimaiteModel.Props.C15Disjoint",
-           "PrimaiteModel.Props.C15Health"]
+           "PrimaiteModel.Props.C15Health", "PrimaiteModel.Props.C15Create"]
 EXE = "drv_c15"
 
 
